@@ -120,7 +120,7 @@ template <class C> struct Runner {
 
 static void sets(int n, std::vector<Str> &srcs, std::vector<Str> &bases) {
     std::vector<const char *> auth = { 0, "//h", "//g", "//u@h", "//h:1", "//u@h:1", "//", "//1.2.3.4", "//[::1]", "//[v1.a]" };
-    std::vector<Str> tokens = { "", "a", "b", "c:d", ".", ".." };
+    std::vector<Str> tokens = { "", "a", "b", "c:d", "1:e", ".", ".." };
     std::vector<Str> rl = path_token_paths(tokens, n, 0), ab = path_token_paths(tokens, n, 1);
     std::set<Str> seen_s, seen_b;
     for (auto a : auth) {
